@@ -126,7 +126,7 @@ def nmax(tier):
 def iter_cases(rng, tier, pf, classes=None):
     for cname in (classes or gen.CLASSES):
         for k in range(ncases(tier)):
-            fs = gen.mesh_case(rng, cname, nmax=nmax(tier), uniform=(k % 5 == 4), nmin=(2 if k == 0 else 1))
+            fs = gen.mesh_case(rng, cname, nmax=nmax(tier), uniform=(k % 5 == 4), nmin=(2 if k == 0 else 1), big=(k % 20 == 1))
             mesh = gen.build_mesh(pf, cname, fs)
             yield cname, fs, mesh, k
 
